@@ -92,6 +92,14 @@ def streams(tier, rng):
         c = gen.scenario(256, 8, [(1, b'Q?', ';'.join(ops))], [('I', b'Q?\n')])
         scases.append(c)
         sinfo[c] = (len(sent), sent, True, True)
+    # blocks beyond 64 KiB (the bookkeeping must not be narrower than the announced length), in one piece and streamed
+    for n in ([65535, 65536, 65537, 70000, 100000] if tier == 'quick' else [65535, 65536, 65537, 65600, 70000, 100000, 120000]):
+        sd = rng.randrange(256)
+        pat = bytes((sd + i * 7) & 255 for i in range(n))
+        for first in ['RBIG:%d:%d' % (n, sd), 'RBIGS:%d:%d:%d' % (n, sd, rng.choice([1000, 4096, 16384, 65536]))]:
+            c = gen.scenario(256, 8, [(1, b'Q?', first + ';RI32:7')], [('I', b'Q?\n')])
+            scases.append(c)
+            sinfo[c] = (n, pat, True, False)
     for n in [10 ** k for k in range(0, 10)] + [10 ** 9 - 1, 4294967295, 999, 12345678]:
         c = gen.scenario(256, 8, [(1, b'Q?', 'RHDR:%d' % n)], [('I', b'Q?\n')])
         scases.append(c)
@@ -115,4 +123,28 @@ def streams(tier, rng):
         if refused != has310:
             return [('overlength', 'data beyond the announced length %s, error -310 %s' % ('sent' if refused else 'not sent', 'queued' if has310 else 'not queued'))]
         return []
+    # what a unit leaves unfinished is not owed by the next unit of the same message: block data sent by the next handler
+    # without a header of its own is beyond any announced length and must be refused
+    ucases = []
+    for _ in range(200 if tier == 'quick' else 3000):
+        n = rng.choice([5, 10, 64])
+        k = rng.randint(0, n - 1)
+        d1 = bytes(rng.getrandbits(8) for _ in range(k))
+        d2 = bytes(rng.getrandbits(8) for _ in range(rng.randint(1, n - k)))
+        a_ops = ['RHDR:%d' % n] + (['RDATA:' + vf.hx(d1)] if d1 else []) + rng.choice([[], ['RETERR']])
+        b_ops = ['RDATA:' + vf.hx(d2), 'RI32:7']
+        sep = rng.choice([b';', b';:', b' ; '])
+        ucases.append(gen.scenario(256, 8, [(1, b'A?', ';'.join(a_ops)), (2, b'B?', ';'.join(b_ops))], [('I', b'A?' + sep + b'B?\n')]))
+
+    def uoracle(case, out):
+        if out.startswith('X') or ' X' in out:
+            return []
+        evs = vf.events(out)
+        i2 = [i for i, e in enumerate(evs) if e.startswith('H2:')]
+        if not i2:
+            return [('unit-block-leak', 'the second unit did not run | ' + case[:200])]
+        if 'E-310' not in evs[i2[0]:]:
+            return [('unit-block-leak', 'block data sent by the second unit without a header was not refused (-310 missing): the length announced by the first unit leaked into it')]
+        return []
+    yield {'name': 'unit-reset', 'coqcheck': True, 'cases': ucases, 'oracle': uoracle, 'nontrivial': lambda c, o: c}
     yield {'name': 'streamed-blocks', 'coqcheck': True, 'cases': scases, 'oracle': soracle, 'nontrivial': lambda c, o: c if c.count('RDATA') >= 2 else None}
